@@ -505,9 +505,9 @@ func checkPerBlockRebuildAs(r *Run, rule, onlyType string) {
 				"the per-block table "+pa.FieldString()+" is reset on some paths of "+fname(fn)+" only: on the other paths a running node keeps the previous block's content, a restarted node starts empty, and their results differ from that block on", p.ipos(st))
 		})
 	}
+	checkHookMapsRecreated(r, rule, onlyType)
+	checkRebuildersCalled(r, rule, rebuilders, reach)
 	if n < 2 {
 		fail("%s: only %d per-block resets found", rule, n)
 	}
-	checkHookMapsRecreated(r, rule, onlyType)
-	checkRebuildersCalled(r, rule, rebuilders, reach)
 }
